@@ -1,12 +1,12 @@
 SPECIFICATION Spec
 CONSTANTS
-  Sizes = {1, 4, 8, 12}
-  Aligns = {0, 1, 4, 16}
+  Sizes = {4, 8, 12}
+  Aligns = {0, 4, 16}
   FlagSet = {0, 1, 3}
-  UseCounts = {1, 5}
+  UseCounts = {5}
   Deltas <- MCDeltas
   MaxSlots = 3
-  MaxOps = 6
+  MaxOps = 12
   Variant = "head"
 INVARIANTS ContractInv NeverFails GapsDead
 PROPERTY RefinesContract
